@@ -448,3 +448,46 @@ __CPROVER_ensures(RET != NULL)
     dropped=['sink names as integer keys', 'the sink type and its constructor arguments (both if-constexpr arms construct one sink; file sinks get the name as file name)', 'LockGuard RAII unlock', 'shared_ptr as pointer'],
     trusted=['_find_sink / _insert_sink by the contracts units SM.find / SM.insert prove (restated)'], min_obligations=15)
 UNITS += [sm_create_or_get]
+
+# ------------------------------------------------------------------------------------------ FrontendImpl::shrink_thread_local_queue / get_thread_local_queue_capacity
+FQ_PRELUDE = r'''
+typedef struct Qx { size_t g_capacity, g_producer_capacity; } Qx;      /* the calling thread's own queue (get_local_thread_context()->get_spsc_queue()) */
+Qx g_local_queue; bool g_unbounded;                                     /* logger_t::using_unbounded_queue of the frontend options (symbolic: one proof for all queue types) */
+size_t g_shrinks, g_shrink_arg; Qx* g_shrunk;
+static inline Qx* LOCAL_QUEUE(void) { return &g_local_queue; }
+/* UnboundedSPSCQueue::shrink (unit UQ.shrink) */
+void UQ_shrink(Qx* q, size_t capacity) __CPROVER_assigns(g_shrinks, g_shrink_arg, g_shrunk) __CPROVER_ensures(g_shrinks == OLD(g_shrinks) + 1 && g_shrink_arg == capacity && g_shrunk == q);
+static inline size_t UQ_producer_capacity(Qx* q) { return q->g_producer_capacity; }
+static inline size_t Q_capacity(Qx* q) { return q->g_capacity; }
+'''
+FQ_RULES = [(r'detail::get_local_thread_context<TFrontendOptions>\(\)\s*->template\s+get_spsc_queue<TFrontendOptions::queue_type>\(\)\s*\.shrink\(capacity\)', 'UQ_shrink(LOCAL_QUEUE(), capacity)', '?'),
+            (r'detail::get_local_thread_context<TFrontendOptions>\(\)\s*->template\s+get_spsc_queue<TFrontendOptions::queue_type>\(\)\s*\.producer_capacity\(\)', 'UQ_producer_capacity(LOCAL_QUEUE())', '?'),
+            (r'detail::get_local_thread_context<TFrontendOptions>\(\)\s*->template\s+get_spsc_queue<TFrontendOptions::queue_type>\(\)\s*\.capacity\(\)', 'Q_capacity(LOCAL_QUEUE())', '?')]
+SYMQ = {'logger_t::using_unbounded_queue': None}
+fe_shrink = dict(
+    name='FE.shrink_queue', primary='C20', props={'C20'}, kind='S',
+    desc='FrontendImpl::shrink_thread_local_queue: the request reaches the calling thread\'s own unbounded queue with the requested capacity, exactly once; a bounded queue is left alone',
+    structs=[], prelude=FQ_PRELUDE, enforce='FE_shrink_thread_local_queue', replace=['UQ_shrink'],
+    funcs=[dict(src=dict(header=FH, cls='FrontendImpl', name='shrink_thread_local_queue'), src_params=['capacity'], cfun='FE_shrink_thread_local_queue', sig='void FE_shrink_thread_local_queue(size_t capacity)',
+                member_fields=[], pre_rules=FQ_RULES, constexpr=lambda c: None, rules=[(r'logger_t::using_unbounded_queue', 'g_unbounded')],
+                contract=r'''
+__CPROVER_requires(g_shrinks == 0)
+__CPROVER_assigns(g_shrinks, g_shrink_arg, g_shrunk)
+__CPROVER_ensures(g_unbounded ==> (g_shrinks == 1 && g_shrink_arg == capacity && g_shrunk == &g_local_queue)) /*@ C20 "a shrink request takes effect on the calling thread's own queue, with the requested capacity" */
+__CPROVER_ensures(!g_unbounded ==> g_shrinks == 0) /*@ C20 "a bounded queue is never resized" */
+''')],
+    harness='  size_t c; FE_shrink_thread_local_queue(c);', dropped=['thread_local lookup of the context (get_local_thread_context) as the address of one queue object', 'queue type kept symbolic (if constexpr -> if)'],
+    trusted=['UnboundedSPSCQueue::shrink by unit UQ.shrink'], min_obligations=3)
+fe_capacity = dict(
+    name='FE.queue_capacity', primary='C20', props={'C20'}, kind='S',
+    desc='FrontendImpl::get_thread_local_queue_capacity: reports the producer-side capacity of the calling thread\'s unbounded queue (the one a shrink changes), the fixed capacity of a bounded one',
+    structs=[], prelude=FQ_PRELUDE, enforce='FE_get_thread_local_queue_capacity', replace=[],
+    funcs=[dict(src=dict(header=FH, cls='FrontendImpl', name='get_thread_local_queue_capacity'), src_params=[], cfun='FE_get_thread_local_queue_capacity', sig='size_t FE_get_thread_local_queue_capacity(void)',
+                member_fields=[], pre_rules=FQ_RULES, constexpr=lambda c: None, rules=[(r'logger_t::using_unbounded_queue', 'g_unbounded')], ret_default='0',
+                contract=r'''
+__CPROVER_assigns()
+__CPROVER_ensures(RET == (g_unbounded ? g_local_queue.g_producer_capacity : g_local_queue.g_capacity)) /*@ C20 "the capacity reported for a thread is that of the buffer its producer currently writes to (so it drops when a shrink took effect)" */
+''')],
+    harness='  FE_get_thread_local_queue_capacity();', dropped=['thread_local lookup of the context as the address of one queue object', 'queue type kept symbolic (if constexpr -> if)'],
+    trusted=['UnboundedSPSCQueue::producer_capacity / capacity by units UQ.producer_capacity, BQ.capacity'], min_obligations=2)
+UNITS += [fe_shrink, fe_capacity]
